@@ -539,6 +539,11 @@ def quantity_edit(draw, spec, names=None, again=None):
 def hourly_edit(draw, spec):
     up = draw(st.sampled_from(spec["system"]))
     n = len(spec["objs"][up]["starts"])
+    if draw(st.floats(0, 1)) < 0.25:
+        # the same values on other dates (a pure re-dating of the usage)
+        cur = spec["objs"][up]["start"]
+        t = datetime(*cur) + timedelta(hours=draw(st.sampled_from([1, 5, 24, 24 * 7, -3, 24 * 30])))
+        return dict(op="hourly", obj=up, start=[t.year, t.month, t.day, t.hour], starts=list(spec["objs"][up]["starts"]))
     vals = draw(st.lists(eighths(), min_size=n, max_size=n))
     if all(v == 0 for v in vals):
         vals[0] = 3.0
